@@ -573,6 +573,11 @@ int main(int argc, char **argv)
   unsigned nthreads = std::thread::hardware_concurrency();
   if (nthreads == 0 || nthreads > 16)
     nthreads = 16;
+  // diagnosis aids (timing, mutation experiments): restrict the run to some sweeps / kernels; the report then says so
+  if (getenv("C07_PARTS"))
+    g_parts = atoi(getenv("C07_PARTS"));
+  if (getenv("C07_FNMASK"))
+    g_fnmask = (unsigned)strtoul(getenv("C07_FNMASK"), nullptr, 0);
   for (int i = 1; i < argc; i++)
     if (std::string(argv[i]) == "--threads" && i + 1 < argc)
       nthreads = (unsigned)atoi(argv[i + 1]);
@@ -609,6 +614,8 @@ int main(int argc, char **argv)
   if (expired)
     vr::capped("deadline: only " + std::to_string(done.load()) + " of " + std::to_string(NCHUNKS) + " chunks of 2^24 inputs were swept");
 
+  if (g_fnmask != ~0u)
+    vr::capped("restricted by --fnmask / C07_FNMASK: not every kernel was swept");
   report_violations(total);
   vr::stat("states", (long long)(total.inputs_float + total.inputs_seed + total.inputs_index));
   long long comparisons = 0;
